@@ -736,7 +736,7 @@ func laAlias(c *Ctx, rule string) {
 
 func checkC01(c *Ctx) {
 	r := c.R
-	r.Explanation = "Necessary conditions of the round trip that are static choices shared by writer and reader, decided for all values: codec pairing and provenance (LA-codec); PLAIN layout per element type — width, little-endian, bit-preserving conversions (same-width integer conversion or math.FloatNNbits), which is what makes NaN payloads, +-0, extreme integers survive; string length prefix width and order; bool bit order on both sides (LA-plain); presence, order and widths of the level streams of a page (LA-order); Add copies the record and shredders keep only primitive values; assemblers never store a slice of the reader's buffers into a record (LA-alias) — this decides the two 'unaffected by mutation' sentences outright; (WH-reset, WH-child) for 'any split into batches, any page size': Write re-initialises every writer field Add advances, and the writer created for the next page inherits sink, page size, codec and metadata. Per struct shape, 'assembly inverts shredding' is decided under C05/C03 (translation validation). NOT decided: page-chain / row-group / cursor arithmetic, loop termination by counts, multi-page bool unpacking, thrift, snappy/gzip internals, Rows()/Next() counts."
+	r.Explanation = "Necessary conditions of the round trip that are static choices shared by writer and reader, decided for all values: codec pairing and provenance (LA-codec); PLAIN layout per element type — width, little-endian, bit-preserving conversions (same-width integer conversion or math.FloatNNbits), which is what makes NaN payloads, +-0, extreme integers survive; string length prefix width and order; bool bit order on both sides (LA-plain); presence, order and widths of the level streams of a page (LA-order); Add copies the record and shredders keep only primitive values; assemblers never store a slice of the reader's buffers into a record (LA-alias) — this decides the two 'unaffected by mutation' sentences outright; (WH-reset, WH-child) for 'any split into batches, any page size': Write re-initialises every writer field Add advances, and the writer created for the next page inherits sink, page size, codec and metadata; (TD) the generated drivers — Write emits per column the parent's page then the child chain's pages, Add counts / hands out / advances once per stored record and keeps a page at max records, Next is true exactly Rows() times and loads a row group exactly when the current one is used up (path enumeration with helper methods inlined, difference bounds on position − limit), the constructor takes Rows() from the footer and seeks behind the magic, readRowGroup consumes exactly one row group and one chunk descriptor per column; (FT) per column type: value count handed to the page writer, bool payload size, values decoded per chunk, Add keeps what the shredder returned; (LA-maxlevels, LA-trim, LA-nonnull, LA-sizes, LA-pages, LA-footer) level bookkeeping and chunk descriptors. Per struct shape, 'assembly inverts shredding' is decided under C05/C03 (translation validation). NOT decided: page-chain / row-group / cursor arithmetic, loop termination by counts, multi-page bool unpacking, thrift, snappy/gzip internals, Rows()/Next() counts."
 	laCodec(c, "LA-codec")
 	laPlain(c, "LA-plain")
 	laOrder(c, "LA-order")
